@@ -5,7 +5,7 @@ EXTENDS Within, TraceIO
 VARIABLES cs, drift
 PolyOk(e) == /\ e.ev = "within" /\ e.out = "ok" /\ Len(e.res) = Len(e.pts)
              /\ \A i \in 1..Len(e.pts) : e.res[i] = Classify(e.pts[i], cs.polys)
-AggOk(e) == /\ e.ev = "agg" /\ e.out = "ok"
+AggOk(e) == /\ e.ev = "agg" /\ e.out = "ok" /\ e.splitsame
             /\ (e.res = Out) = AggOutside(cs.vs, cs.polys)
 Ok(e) == IF cs.kind = "agg" THEN AggOk(e) ELSE PolyOk(e)
 Apply(e) == /\ UNCHANGED cs
